@@ -90,12 +90,13 @@ def _odd_xy(shape):
 REJECTION = 'axis_size must be 1 or even'
 
 
-def _guard(rec, shape, key, fn):
-  """Runs fn(); on meshes with an odd x or y axis the library's documented ValueError is an accepted outcome."""
+def _guard(rec, shape, key, fn, may_reject=None):
+  """Runs fn(); on meshes with an odd x or y axis (or, for a bare einsum, an odd mesh axis along the contracted
+  dimension) the library's documented ValueError is an accepted outcome."""
   try:
     return True, fn()
   except ValueError as e:
-    if _odd_xy(shape) and REJECTION in str(e):
+    if (_odd_xy(shape) if may_reject is None else may_reject) and REJECTION in str(e):
       rec.case(key, transitions=1, outcome=('rejected',), sample={'mesh': list(shape), 'outcome': 'documented rejection: ' + REJECTION})
       rec.note('odd_mesh_axis_rejected_as_documented')
       return False, None
@@ -141,7 +142,10 @@ def _einsum_unit(unit, rec):
           f = lambda r: jnu.sharded_einsum(subs, lhs, r, mesh=mesh, rhs_spec=rhs_spec, out_spec=out_spec, gather_inputs=gather, reverse_arg_order=rev,
                                            precision='highest')
           return np.asarray(jax.vmap(f)(jnp.asarray(onehots)))
-        ok, got = _guard(rec, shape, key, run)
+        # the contracted rhs dimension decides which mesh axis the ring collective runs over
+        red = [ax for c, ax in zip(rhs_s, rhs_axes) if c not in out_s and ax]
+        odd_reduce = any(size[ax] > 1 and size[ax] % 2 for ax in red)
+        ok, got = _guard(rec, shape, key, run, may_reject=odd_reduce)
         if not ok:
           continue
         rec.case(key, transitions=nr, outcome=got.tobytes(),
